@@ -161,9 +161,14 @@ pub fn state_event_hist(id: usize, p: &Problem, k: u32, first: Option<u32>) -> V
                 solver.settings.max_iter = k;
             }
         }
+        // "+switch": the step of the last pass is clamped below min_switch_step_length, so that a problem with exponential /
+        // power cones changes from the primal-dual to the dual scaling strategy INSIDE that pass and the solve stops right
+        // after it: the matrix must have been refreshed with the scaling the cones now hold
+        if pk.tag.contains("+switch") && k >= 1 { clarabel::verif::set_script(vec![("alpha".to_string(), k - 1, 0.05)]); }
         clarabel::verif::set_detail(1_000_000);
         clarabel::verif::start();
         solver.solve();
+        clarabel::verif::set_script(vec![]);
         let evs = clarabel::verif::take();
         let v = solver.kktsystem.verif_kkt_view().expect("direct solver");
         let icones: Vec<ConeSpec> = solver.data.cones.iter().map(ConeSpec::from_clarabel).collect();
@@ -472,8 +477,12 @@ pub fn record_states(seed: u64, count: usize) -> (Vec<Value>, Vec<Value>) {
             p.tag.push_str("+tinysoc");
         }
         if rng.gen::<f64>() < 0.12 { p.tag.push_str("+failed"); }
+        if !p.is_symmetric() && rng.gen::<f64>() < 0.4 { p.tag.push_str("+switch"); }
         p.settings = Value::Object(s);
-        let k = [0u32, 1, 2, 3, 5, 8, 200][rng.gen_range(0..7)];
+        let mut k = [0u32, 1, 2, 3, 5, 8, 200][rng.gen_range(0..7)];
+        // (tiny cones are looked at on the way, not at convergence: there the slack of an active cone is ~1e-30 and the rank-two
+        //  expansion cancels to nothing in double precision - no statement about its entries survives)
+        if p.tag.contains("+tinysoc") && k > 8 { k = 8; }
         let first = if rng.gen::<f64>() < 0.4 { Some([1u32, 3, 200][rng.gen_range(0..3)]) } else { None };
         lines.push(state_event_hist(id, &p, k, first));
         cases.push(json!({"run": id, "problem": p, "k": k, "first": first}));
